@@ -4,12 +4,15 @@ worktree under /tmp/wt) and run the quick checks that are recorded as catching i
 not apply any more (the code it touched has been repaired or rewritten since)."""
 import json, os, re, subprocess, sys
 ROOT = '/verif/seeded'
-WT = '/tmp/wt/seedreg'
+PART = os.environ.get('SEEDREG_PART', '')          # 'i/n': this instance takes every n-th seed, starting with the i-th
+WT = '/tmp/wt/seedreg' + PART.replace('/', 'of')
 want = sys.argv[1:]
 os.makedirs('/tmp/wt', exist_ok=True)
 out = []
-for name in sorted(os.listdir(ROOT)):
+for idx, name in enumerate(sorted(os.listdir(ROOT))):
     d = os.path.join(ROOT, name)
+    if PART and idx % int(PART.split('/')[1]) != int(PART.split('/')[0]):
+        continue
     if not os.path.isdir(d) or (want and not any(name.startswith(w) for w in want)):
         continue
     meta = json.load(open(os.path.join(d, 'meta.json')))
@@ -25,7 +28,7 @@ for name in sorted(os.listdir(ROOT)):
             continue
         verdict = 'MISSED'
         for p in props:
-            env = dict(os.environ, VERIF_REPO=WT, VERIF_EVIDENCE_DIR='/tmp/wt/seedreg-ev/evidence', VERIF_SKIP_CONFORMANCE='1')
+            env = dict(os.environ, VERIF_REPO=WT, VERIF_EVIDENCE_DIR=WT + '-ev/evidence', VERIF_SKIP_CONFORMANCE='1')
             try:
                 c = subprocess.run(['/verif/check', p], env=env, capture_output=True, text=True, timeout=2400)
                 if c.returncode != 0 and 'VIOLATION property=' in c.stdout:
@@ -38,6 +41,6 @@ for name in sorted(os.listdir(ROOT)):
         print(name, verdict, flush=True)
     finally:
         subprocess.run(['git', '-C', '/repo', 'worktree', 'remove', '--force', WT], capture_output=True)
-json.dump(out, open('/tmp/wt/seedreg.json', 'w'), indent=0)
+json.dump(out, open(WT + '.json', 'w'), indent=0)
 print('caught=%d missed=%d n/a=%d' % (sum(1 for x in out if x[1].startswith('caught')), sum(1 for x in out if x[1] in ('MISSED',) or x[1].startswith('TIMEOUT')),
                                       sum(1 for x in out if x[1] == 'n/a')))
